@@ -24,6 +24,13 @@ def e2e_oracle(chk, r):
             chk.violation("end-to-end", c, {"excess": r["resim_excess"], "nbh": r["nbh"], "H": r["H"]}, "an unmet design is an error unless the user asked to continue")
         elif abs(r["H"] - gc["max_height"]) > 1e-9:
             chk.violation("end-to-end", c, {"H": r["H"]}, "loads too large + continue: largest candidate at MAXIMUM height")
+        elif gc["method"] == "NEARSQUARE" and mb is None:
+            # the largest candidate of the near-square search is the largest square grid at spacing b that fits the side
+            # (Props/C02.v: C02_near_square_largest_candidate), counted here exactly from the requested numbers
+            n = int(Fraction(str(gc["length"])) / Fraction(str(gc["b"]))) + 1
+            if r["nbh"] < n * n:
+                chk.violation("end-to-end", c, {"nbh": r["nbh"], "largest_square_grid_that_fits": n * n},
+                              "loads too large + continue: the LARGEST allowed candidate is returned")
 
 
 def configs(tier):
